@@ -253,7 +253,11 @@ func (h *History) CheckLog(r *Runner, sessionsRestart bool) *Failure {
 		}
 		a := ci.ActorID.String()
 		if ci.ClientSeq != lastClientSeq[a]+1 {
-			if !(sessionsRestart && ci.ClientSeq == 1) {
+			// On a presenceless document the presence-only changes of clients
+			// that did not opt out are stripped before they are stored: they
+			// leave gaps in the actor's clientSeq (never a repeat).
+			gapOK := r.P.Cfg.NoPresence && ci.ClientSeq > lastClientSeq[a]
+			if !(sessionsRestart && ci.ClientSeq == 1) && !gapOK {
 				return failf("LOG-CLIENTSEQ", "actor %s: clientSeq %d after %d at serverSeq %d", a, ci.ClientSeq, lastClientSeq[a], ci.ServerSeq)
 			}
 		}
